@@ -38,7 +38,7 @@ PROPS = {
     'C03': dict(
         oplayer=['P2_lrucache_eject_to_target', 'P2_lrucache_set_max_size', 'P2_lrucache_remove_lru', 'P2_lrucache_remove_ptr', 'P2_lrucache_remove_metadata'],
         comps=['evict_order', 'keyset', 'mon_c03'],
-        theorems=['C03_insert', 'C03_exact_fit', 'C03_mutate', 'C03_set_max', 'C03_only_when', 'C03_pointer_level', 'C03_monitor_sound'],
+        theorems=['C03_insert', 'C03_exact_fit', 'C03_mutate', 'C03_set_max', 'C03_only_when', 'C03_pointer_level', 'C03_monitor_sound', 'C03_evicts_least_recently_accessed', 'C03_lru_is_least_recently_accessed'],
         assumptions=['eviction order is observed through the order in which the evicted keys are dropped'],
     ),
     'C04': dict(
@@ -56,7 +56,7 @@ PROPS = {
     ),
     'C06': dict(
         comps=['mon_c06', 'drop_once'],
-        theorems=['C06_step', 'C06_exactly_once', 'C06_no_leak_without_forget', 'C06_monitor_sound', 'C06_pointer_level'],
+        theorems=['C06_step', 'C06_exactly_once', 'C06_no_leak_without_forget', 'C06_monitor_sound', 'C06_pointer_level', 'C06_exactly_once_pointer_level'],
         assumptions=['object identity = token carried by the instrumented key/value types; Drop logs the token'],
     ),
     'C07': dict(
@@ -151,12 +151,12 @@ _T = 'Coq proof (invariant / characterisation lemmas by induction over operation
 MANIFEST_TEXT = {
     'C01': dict(text='Theorems C01_bound / C01_arith over every reachable state of the Layer A model (all histories, limits 0..2^64-1, capacities, table oracles): bound on the counter and on the unbounded sum of size estimates, no 64-bit under/overflow, eviction loop terminates; C01_total: with the invariant of the hash table itself and tables below 2^48 entries every step is defined. Tied to /repo by the step-wise differential check and the extracted monitor c01_mon on the implementation.', note=_A, technique=_T),
     'C02': dict(text='Theorem C02_sum (cur = sum of recorded sizes = sum of entry_size, zero iff empty, one entry per key) over every reachable state; recorded per-entry sizes are read through the snapshot hook and compared after every step.', note=_A, technique=_T),
-    'C03': dict(text='Theorems C03_insert / C03_mutate / C03_set_max: the evicted entries are exactly the shortest LRU-first prefix (minimal_prefix) computed after crediting a replaced key, never the new or mutated entry; C03_exact_fit; C03_only_when (only successful insert, growing mutate, set_max_size evict); C03_monitor_sound: the extracted monitor c03_mon (the last entry to leave could not have stayed, in the TRUE sizes of the entries) holds for every step of the model. Eviction order of the implementation is read from the drop order; c03_mon is evaluated on every observed step, also on steps whose pre-state has inconsistent size bookkeeping.', note=_A, technique=_T),
+    'C03': dict(text='Theorems C03_insert / C03_mutate / C03_set_max: the evicted entries are exactly the shortest LRU-first prefix (minimal_prefix) computed after crediting a replaced key, never the new or mutated entry; C03_exact_fit; C03_only_when (only successful insert, growing mutate, set_max_size evict); C03_evicts_least_recently_accessed / C03_lru_is_least_recently_accessed: after ANY history, what an insertion evicts was last accessed before every old entry that stays, and peek_lru shows the entry whose last access is the oldest (from the history-level order theorem); C03_monitor_sound: the extracted monitor c03_mon (the last entry to leave could not have stayed, in the TRUE sizes of the entries) holds for every step of the model. Eviction order of the implementation is read from the drop order; c03_mon is evaluated on every observed step, also on steps whose pre-state has inconsistent size bookkeeping.', note=_A, technique=_T),
     'C05': dict(text='Theorem C05_order_of_last_access: after ANY history from new/with_capacity (unbounded length, arbitrary table oracle at every step) the keys from least- to most-recently-used are strictly increasing in the time of their last access, where only the seven promoting operations count as accesses (induction over histories). Theorem C05_order for every operation: keys after = surviving keys in their old relative order ++ promoted key, with the exact table of promoting operations; C05_observers: observers leave the state identical; C05_touch/remove/insert/realloc_pointer (Layer B): the list surgery acts on the abstract entry list exactly so, reallocation in any table order is the identity. Order of the implementation is read through the hook walk and cross-checked against iter()/rev()/keys()/values()/peek_lru/peek_mru/Debug after every step.', note=_A, technique=_T),
     'C10': dict(text='Theorems C10_insert / C10_try_insert: exact classification with precedence, exact payload figures, atomicity of every failure (state equality incl. table), no eviction when the entry fits. The harness compares variant, all fields, identity tokens of the returned pair and bit-for-bit pointer structure before/after.', note=_A, technique=_T),
     'C11': dict(text='Theorems C11_absent / C11_too_large / C11_ok characterise mutate for every state and size change (shrink, equal, growth that fits with minimal eviction, growth beyond the limit with exact old/new sizes and untouched remainder).', note=_A + '; closure-not-called for absent keys is a harness observation', technique=_T),
     'C04': dict(text='Theorem C04_last_store_wins: after ANY history from new/with_capacity a lookup of any key finds exactly what the client-side sequential map sm_of holds (the value most recently stored by insert/try_insert/mutate unless the key has since been reported as removed, evicted, rejected by retain, cleared or drained), by induction over histories. Theorems C04_nodup (one entry per key in every reachable state), C04_outputs / C04_insert_returns_old (every lookup, membership test, insertion, removal returns what the map says) and C04_step (every step updates the key->value map as a sequential map would, whatever the table oracle does: growth/reserve/shrink anywhere). "Any hasher / borrowed form" is the assumed hashbrown contract, exercised not proved (partial, see note).', note=_A + '; partial: independence from the hash function rests on the assumed hashbrown contract', technique=_T),
-    'C06': dict(text='Theorems C06_step (per-step multiset balance of object tokens: held + introduced = held + dropped + handed back (+ leaked by a forgotten Drain)) and C06_exactly_once (any history from creation to drop: every token exactly once in dropped / returned / leaked, never two of them), C06_no_leak_without_forget. The extracted monitor c06_mon and a never-dropped-twice check run on the implementation at identity level.', note=_A + '; the ptr::read paths of owning iterators are covered at list level here and at pointer level in Layer B', technique=_T),
+    'C06': dict(text='Theorems C06_step (per-step multiset balance of object tokens: held + introduced = held + dropped + handed back (+ leaked by a forgotten Drain)) and C06_exactly_once (any history from creation to drop: every token exactly once in dropped / returned / leaked, never two of them), C06_no_leak_without_forget; C06_exactly_once_pointer_level: the same from new_b through any run of pointer-level operations to the bucket walk of Drop. The extracted monitor c06_mon and a never-dropped-twice check run on the implementation at identity level.', note=_A + '; the ptr::read paths of owning iterators are covered at list level here and at pointer level in Layer B', technique=_T),
     'C12': dict(text='Theorems C12_split / C12_fused: for every pattern of next/next_back on every list, fronts ++ rest ++ rev backs = list, None only after exhaustion and then for ever; C12_iter / C12_drain / C12_into_iter tie the operations to that specification (drain leaves an empty, valid cache; owning iterators drop exactly the unconsumed). Item sequences of all seven iterator kinds with random patterns past exhaustion are compared.', note=_A, technique=_T),
     'C13': dict(text='Theorems over the Layer T abstraction of hashbrown capacity accounting, all oracles: C13_reserve, C13_shrink / C13_shrink_to_fit (never raises, keeps >= max(len,min)), C13_try_reserve_fail (state unchanged), C13_transparent, C13_with_capacity_step, C13_with_capacity_run (a run of any length of at most n fresh, non-evicting insertions interleaved with lookups after with_capacity(n) never changes the table and never rebuilds; induction over runs), C13_auto_growth (growth only when full, new capacity < max(4 x entries, 16)), C13_growth_bounded (over whole histories with ghost peak/request variables: full capacity < max(4 x peak len, 16) or within an explicit request, however long the churn); arithmetic of capacity_to_buckets / bucket_mask_to_capacity proved (c2b_spec). Monitors c13_mon and the history growth bound run on the implementation.', note=_A + '; tombstone behaviour of hashbrown is an oracle (over-approximated)', technique=_T),
     'C14': dict(text='Theorems C14_equal (same entries, order, recorded sizes, counters; capacity >= source), C14_fresh, C14_inv (the clone satisfies the invariant so all theorems apply to it); Layer B frame theorems C14_footprint_touch/remove/insert and C14_independent: in a shared heap the list surgery on one cache writes only the nodes of that cache, so a cache with disjoint nodes keeps its invariant and content; C14_frame_ops / C14_independent_ops / C14_independent_runs (B/FrameOps.v, B/FrameRun.v): the same for EVERY public operation of the pointer-level model (insertion with eviction and rebuild, mutate, retain, clear, drain, reserve, shrink) and for runs of any length from any reachable state; C14_clone_then_ops for a clone and its source. On the implementation independence is observed through bit-for-bit fingerprints of all other caches after every operation.', note=_A + '; the buckets hashbrown hands out are oracle values assumed not to be nodes of the other cache', technique=_T),
